@@ -334,7 +334,7 @@ func genSchedule(r *hx.Rng, labels []string) (sched []string, widened bool, name
 
 func (r *runner) budget() (schedN, stressN int, schedUntil, stressUntil time.Duration) {
 	if r.cfg.Tier == "thorough" {
-		schedN, stressN, schedUntil, stressUntil = 900, 4000, 9*time.Minute, 13*time.Minute+30*time.Second
+		schedN, stressN, schedUntil, stressUntil = 2000, 6000, 9*time.Minute, 13*time.Minute+30*time.Second
 	} else {
 		schedN, stressN, schedUntil, stressUntil = 70, 100, 36*time.Second, 50*time.Second
 	}
